@@ -20,7 +20,13 @@ def stress_cases(ctx, res, n):
         init = [rnd.choice([0, 1])] if res == "val" else [rnd.choice([-1, 1]), rnd.choice([-1, 2])]
         kinds = [{"uo": rnd.random() < 0.3, "lossy": rnd.random() < 0.3, "masked": rnd.random() < 0.3}
                  for _ in range(rnd.choice([1, 2, 2]))]
-        cases.append({"res": res, "init": init, "progs": progs, "kinds": kinds, "sched": [],
+        equiv = "none"
+        if rnd.random() < 0.25:        # an equivalence configured: writes of equal values, remove and add again
+            equiv = res
+            kinds = [dict(k, lossy=False) for k in kinds]
+            progs = [dict(rnd.choice([call(v=1, cia=True), call(v=1, cia=True), call(v=2, cia=True), call(op="del", am=True)]
+                                     if res == "coll" else [call(v=1), call(v=1), call(v=2)])) for _ in range(nw)]
+        cases.append({"res": res, "equiv": equiv, "init": init, "progs": progs, "kinds": kinds, "sched": [],
                       "stress": 30 if ctx.tier == "quick" else 300})
     return cases
 
@@ -28,7 +34,7 @@ def stress_cases(ctx, res, n):
 def run(ctx):
     thorough = ctx.tier == "thorough"
     for cfg in ["ConcMC_sub_val.cfg", "ConcMC_sub_coll.cfg", "ConcMC_lossy_val.cfg", "ConcMC_lossy_coll.cfg",
-                "ConcMC_gc_coll.cfg"] + \
+                "ConcMC_gc_coll.cfg", "ConcMC_equiv_coll.cfg", "ConcMC_equiv_val.cfg"] + \
             (["ConcMC_sub2_coll.cfg", "ConcMC_sub_val3.cfg"] if thorough else []):
         ctx.mc("ConcMC", cfg, workers=vf.NCPU, timeout=3000)
     cases = []
@@ -52,6 +58,11 @@ def run(ctx):
         cases += conc_common.gen(ctx, "ConcGen_sub_val3.cfg", "val", simulate="num=800")
         cases += conc_common.gen(ctx, "ConcGen_sub2_val_mask.cfg", "val", simulate="num=500")
         cases += conc_common.gen(ctx, "ConcGen_sub2_coll_mask.cfg", "coll", simulate="num=500")
+    # resources with an equivalence configured (changes equal to what the subscriber holds are suppressed)
+    cases += conc_common.gen(ctx, "ConcGen_equiv_coll.cfg", "coll", simulate=None if thorough else "num=700",
+                             equiv="coll", timeout=1800)
+    cases += conc_common.gen(ctx, "ConcGen_equiv_val.cfg", "val", simulate=None if thorough else "num=400",
+                             equiv="val", timeout=1800)
     if len(cases) < 500:
         raise vf.Inconclusive("only %d schedules generated" % len(cases))
     # counterexample schedules of the unordered-publication variant (the defect the publication mutex repairs)
@@ -64,6 +75,9 @@ def run(ctx):
     # ... and of the variant whose bus is garbage-collected from the copy taken when the publication began
     att += conc_common.attacks(ctx, "ConcGen_gc_coll_pinned.cfg", "coll", "noMissed", 2000 if thorough else 25,
                                simulate="num=%d" % (60000 if thorough else 5000))
+    # ... and of the variant that keeps what it last sent for an id after handing its removal over
+    att += conc_common.attacks(ctx, "ConcGen_equiv_coll_keep.cfg", "coll", "converged", 2000 if thorough else 25,
+                               simulate=None if thorough else "num=3000", equiv="coll")
     if thorough:
         att += conc_common.attacks(ctx, "ConcGen_lossy_coll_pinned.cfg", "coll", "converged", 2000)
     ctx.cov["attack_schedules"] = len(att)
